@@ -211,6 +211,11 @@ def run_for(ex, st):
         ex.assume(eval_spec(ex, inv))
     dec = ex.contract.decreases.get(ord_) if ex.contract else None
     if ex.branch(i < n):
+        # quantified facts about the elements of a sequence (forall_idx) are instantiated at the
+        # current index: sound, and it saves the solvers the search for the instance
+        for p in list(ex.pc):
+            if z3.is_quantifier(p) and p.is_forall() and p.num_vars() == 1 and p.var_sort(0) == vl.Int:
+                ex.pc.append(z3.substitute_vars(p.body(), i))
         ex.bind_target(st.target, it.elem(i), st)
         from . import mutate
         mutate.record_roots(ex, st.target, st.iter)
